@@ -100,6 +100,17 @@ func (c03) Generate(tier string, yield func(*engine.Case) bool) {
 		}
 	}
 	emit(srcCase("dupkeys", `["a":1,"a":2]["a"]`, `["a":1,"a":2]["a"]`, none, ""))
+	// string literals spelled like the variable, field and function names of the same program
+	{
+		nenv := real.EnvSpec{Rep: "raw", Binds: []real.Binding{{Name: "name", V: ref.StrV("v")}, {Name: "n", V: ref.NumV(3)}, {Name: "s", V: ref.StrV("s")}, {Name: "id", V: ref.NumV(4)}}}
+		for _, src := range []string{
+			`name == "name"`, `"name" + name`, `name + "name"`, `if(n > 0, {id: n}.id, len("id"))`, `if(n < 0, {id: n}.id, len("id"))`, `{s: s}.s + "s"`,
+			`["name": name]["name"]`, `len("len") + len(name)`, `"n" + string(n)`, `{name: name, n: n}.name + "n"`, `["tr": tr(1, "tr")]["tr"]`,
+			`string({id: "id"})`, `id + len("id") + {id: id}.id`, `{a: "a", b: "b"}.b + "a"`, `["s", s, "name", name]`, `{n: "n"}.n == "n" && n == 3`,
+		} {
+			emit(srcCase("name-collisions", src, src, nenv, ""))
+		}
+	}
 	emit(srcCase("dupkeys", `[1:"x",1.0:"y"][1]`, `[1:"x",1.0:"y"][1]`, none, ""))
 	for _, n := range []int{254, 255, 256} {
 		name := "wide255"
